@@ -656,7 +656,7 @@ func generated(label string, n int, g func(t *rapid.T, i int) Art) []Art {
 }
 
 // sizes: quick keeps the generated artifacts small, thorough allows ~4x
-func budget() int { return vh.Scale(3000, 12000) }
+func budget() int { return vh.Scale(6000, 20000) }
 
 func genBundle(t *rapid.T, i int) Art {
 	want := []string{"b1", "b2"}[i%2]
@@ -793,30 +793,40 @@ func genScalar(t *rapid.T, label string, ops []string) Call {
 	return c
 }
 
+// lastOps: the final call of generated sequence i is lastOps[i%7], so that for every encoder
+// method there are artifacts where its write is the last one (an ignored error there is success).
+var lastOps = []string{"map", "bytes", "text", "bool", "uint", "int", "array"}
+
+func genMap(t *rapid.T) Call {
+	m := Call{Op: "map"}
+	ne := rapid.IntRange(2, 6).Draw(t, "nentries")
+	if rapid.IntRange(0, 5).Draw(t, "smallmap") == 0 {
+		ne = rapid.IntRange(0, 1).Draw(t, "nentries-small")
+	}
+	for e := 0; e < ne; e++ {
+		key := fmt.Sprintf("%s%d", rapid.SampledFrom([]string{"k", "key-", "", "a-rather-long-map-key-over-23-bytes-", "é"}).Draw(t, "keyprefix"), e)
+		m.Entries = append(m.Entries, Entry{Key: key, Val: genScalar(t, "val", []string{"uint", "int", "bytes", "bytes", "text", "bool", "array"})})
+	}
+	return m
+}
+
 func genCBOR(t *rapid.T, i int) Art {
 	n := rapid.IntRange(1, 8).Draw(t, "ncalls")
 	var calls []Call
 	for j := 0; j < n; j++ {
-		last := j == n-1
-		// every third artifact ends with a map, every third with a byte/text string
-		if (last && i%3 == 0) || (!last && rapid.IntRange(0, 3).Draw(t, "map") == 0) {
-			m := Call{Op: "map"}
-			ne := rapid.IntRange(2, 6).Draw(t, "nentries")
-			if rapid.IntRange(0, 5).Draw(t, "smallmap") == 0 {
-				ne = rapid.IntRange(0, 1).Draw(t, "nentries-small")
+		if j == n-1 {
+			if op := lastOps[i%len(lastOps)]; op == "map" {
+				calls = append(calls, genMap(t))
+			} else {
+				calls = append(calls, genScalar(t, "last", []string{op}))
 			}
-			for e := 0; e < ne; e++ {
-				key := fmt.Sprintf("%s%d", rapid.SampledFrom([]string{"k", "key-", "", "a-rather-long-map-key-over-23-bytes-", "é"}).Draw(t, "keyprefix"), e)
-				m.Entries = append(m.Entries, Entry{Key: key, Val: genScalar(t, "val", []string{"uint", "int", "bytes", "bytes", "text", "bool", "array"})})
-			}
-			calls = append(calls, m)
 			continue
 		}
-		ops := []string{"uint", "int", "bytes", "text", "array", "bool"}
-		if last && i%3 == 1 {
-			ops = []string{"bytes", "text"}
+		if rapid.IntRange(0, 3).Draw(t, "map") == 0 {
+			calls = append(calls, genMap(t))
+			continue
 		}
-		calls = append(calls, genScalar(t, "call", ops))
+		calls = append(calls, genScalar(t, "call", []string{"uint", "int", "bytes", "text", "array", "bool"}))
 	}
 	return Art{Serializer: "cbor", CBOR: calls}
 }
@@ -912,6 +922,8 @@ func fixedCBOR() []Art {
 		{Serializer: "cbor", CBOR: []Call{{Op: "uint", U: 500}, {Op: "text", S: "hello"}, {Op: "array", Len: 3}, {Op: "bool", B: true}, {Op: "int", I: -500}, m}},
 		{Serializer: "cbor", CBOR: []Call{m, {Op: "uint", U: 1<<64 - 1}, {Op: "bytes", Len: 300, Tag: 33}}},
 		{Serializer: "cbor", CBOR: []Call{{Op: "array", Len: 2}, {Op: "bytes", Len: 0, Tag: 1}, {Op: "text", S: strings.Repeat("x", 256)}}},
+		{Serializer: "cbor", CBOR: []Call{{Op: "array", Len: 3}, {Op: "int", I: -65537}, {Op: "bool", B: false}, {Op: "bool", B: true}}},
+		{Serializer: "cbor", CBOR: []Call{{Op: "text", S: "n"}, {Op: "uint", U: 1 << 32}}},
 	}
 }
 
@@ -921,21 +933,21 @@ func nGen(quick, thorough int) int { return vh.Scale(quick, thorough) }
 
 func TestFaultBundle(t *testing.T) {
 	arts := fixedBundles()
-	arts = append(arts, generated("bundle", nGen(12, 96), genBundle)...)
+	arts = append(arts, generated("bundle", nGen(12, 160), genBundle)...)
 	runAll(t, arts)
 }
 
 func TestFaultSxgWrite(t *testing.T) {
 	arts := fixedSxg("sxg-write")
-	arts = append(arts, generated("sxg-write", nGen(12, 96), genSxg("sxg-write"))...)
+	arts = append(arts, generated("sxg-write", nGen(15, 180), genSxg("sxg-write"))...)
 	runAll(t, arts)
 }
 
 func TestFaultSxgDump(t *testing.T) {
 	arts := fixedSxg("sxg-headers")
 	arts = append(arts, fixedSxg("sxg-signedmsg")...)
-	arts = append(arts, generated("sxg-headers", nGen(9, 72), genSxg("sxg-headers"))...)
-	arts = append(arts, generated("sxg-signedmsg", nGen(9, 72), genSxg("sxg-signedmsg"))...)
+	arts = append(arts, generated("sxg-headers", nGen(9, 120), genSxg("sxg-headers"))...)
+	arts = append(arts, generated("sxg-signedmsg", nGen(9, 120), genSxg("sxg-signedmsg"))...)
 	runAll(t, arts)
 }
 
@@ -943,9 +955,9 @@ func TestFaultEncoders(t *testing.T) {
 	arts := fixedChains()
 	arts = append(arts, fixedMI()...)
 	arts = append(arts, fixedCBOR()...)
-	arts = append(arts, generated("certchain", nGen(6, 48), genChain)...)
-	arts = append(arts, generated("mice", nGen(8, 64), genMI)...)
-	arts = append(arts, generated("cbor", nGen(9, 96), genCBOR)...)
+	arts = append(arts, generated("certchain", nGen(6, 60), genChain)...)
+	arts = append(arts, generated("mice", nGen(8, 120), genMI)...)
+	arts = append(arts, generated("cbor", nGen(14, 210), genCBOR)...)
 	runAll(t, arts)
 }
 
